@@ -424,6 +424,7 @@ def run(run):
                                              layer_r0s=np.array([0.15, 0.3, 0.5]), layer_L0s=np.array([25.0, 40.0, 30.0]))),
                        ("layer-above-rayleigh-guide-star", dict(gs_altitudes=np.array([0.0, 6000.0, 12000.0][:nw]),
                                                                 layer_altitudes=np.array([0.0, 8000.0]))),
+                       ("nearly-equal-guide-star-altitudes", dict(gs_altitudes=np.array([90000.0, 90005.0, 90010.0][:nw]), layer_altitudes=np.array([0.0, 5000.0]))),
                        ("identical-masks", dict(pupil_masks=np.array([g0["pupil_masks"][0]] * nw))),
                        # equal sub-aperture COUNTS, different masks (a mask and its mirror image), with a layer on the ground
                        ("mirrored-masks-equal-counts", dict(pupil_masks=np.array([g0["pupil_masks"][1], g0["pupil_masks"][1][::-1, ::-1].copy(), g0["pupil_masks"][1].T.copy()][:nw]))),
